@@ -26,6 +26,7 @@ structure FreeStep (b : Arena) (fl : List Nat) (j : Nat) (b' : Arena) : Prop whe
   self : ∀ s, b.slot j = some s → ∃ s' nf, b'.slot j = some s' ∧
     s'.stamp = (if s.stamp < 32767 then -s.stamp - 1 else -s.stamp) ∧ s'.data = .nextFree nf
   length : b'.nodes.length = b.nodes.length
+  payload : ∀ k s v, k ≠ j → b.slot k = some s → s.data = .data v → ∃ s', b'.slot k = some s' ∧ s'.data = .data v
 
 theorem freeNode_index (b : Arena) (id : NodeId) : freeNode b id = freeNode b ⟨id.index0 + 1, 0⟩ := by
   unfold freeNode
@@ -68,7 +69,8 @@ theorem freeStep {b : Arena} {fl : List Nat} (f : FreeOk b fl) (j : Nat) (s : Sl
     rw [hfree1]
     generalize hb' : ({ (b.setSlot j node') with firstFree := some j, lastFree := some j } : Arena) = b'
     have hslot : ∀ k, b'.slot k = if j = k then some node' else b.slot k := fun k => by rw [← hb']; exact hb1 k
-    refine ⟨⟨by simp [hfnil], ?_, by rw [← hb']; simp [hfnil], by rw [← hb']; simp [hfnil], ?_⟩, ?_, ?_, ?_, ?_, ?_⟩
+    refine ⟨⟨by simp [hfnil], ?_, by rw [← hb']; simp [hfnil], by rw [← hb']; simp [hfnil], ?_⟩, ?_, ?_, ?_, ?_, ?_,
+      fun k sk v hk hsk hd => ⟨sk, by rw [hslot, if_neg (Ne.symm hk)]; exact hsk, hd⟩⟩
     · intro k
       simp only [hfnil, List.nil_append, List.mem_singleton]
       constructor
@@ -130,7 +132,20 @@ theorem freeStep {b : Arena} {fl : List Nat} (f : FreeOk b fl) (j : Nat) (s : Sl
       rw [this] at hlf; cases hlf
     have hjlidx : fl[fl.length - 1]? = some jl := by
       rw [List.getLast?_eq_getElem?] at hlf; exact hlf
-    refine ⟨⟨?_, ?_, ?_, by rw [← hb']; simp, ?_⟩, ?_, ?_, ?_, ?_, ?_⟩
+    have hsjfree : ∃ nf, sj.data = .nextFree nf := by
+      obtain ⟨kk, hkk⟩ := List.getElem?_of_mem hjl
+      obtain ⟨s2, hs2, hd2⟩ := f.link kk jl hkk
+      rw [hsj] at hs2; cases hs2
+      exact ⟨_, hd2⟩
+    refine ⟨⟨?_, ?_, ?_, by rw [← hb']; simp, ?_⟩, ?_, ?_, ?_, ?_, ?_, ?_⟩
+    rotate_right
+    · intro k s2 v hk hs2 hd
+      by_cases hjj : jl = k
+      · subst hjj
+        rw [hsj] at hs2; cases hs2
+        obtain ⟨nf, hnf⟩ := hsjfree
+        rw [hnf] at hd; cases hd
+      · exact ⟨s2, by rw [hslot, if_neg hjj, if_neg (Ne.symm hk)]; exact hs2, hd⟩
     · exact List.nodup_append.mpr ⟨f.nodup, by simp, fun x hx y hy e => by simp at hy; subst hy; subst e; exact hjfree hx⟩
     · intro k
       simp only [List.mem_append, List.mem_singleton]
